@@ -4,7 +4,7 @@ import vlib, trees, gens, checklib
 from vlib import enc
 from checklib import Scenario
 
-RULE = ("two-layer trees under $ECONFTOOL_ROOT (vendor /usr/etc, local /etc) and single absolute files x --delimiters / "
+RULE = ("two-layer trees under $ECONFTOOL_ROOT (configuration names with one and with several dots) (vendor /usr/etc, local /etc) and single absolute files x --delimiters / "
         "--comment choices (one character and sets of two) x files using both comment characters, files with only group-less keys, only sections, both, empty sections, multi-line values, "
         "malformed lines; the real econftool binary (ASan build of util/econftool.c + lib) is run for show, syntax and cat; "
         "stdout, the error line on stderr and the exit status are compared with the model of the tool, which is built on the "
@@ -62,7 +62,7 @@ def check(tier, seed):
     n = 360 if tier == "quick" else 6000
     scen, meta = [], []
     for _ in range(n):
-        name = rng.choice([b"foo", b"bar"]); sfx = rng.choice([b"conf", b"cfg"])
+        name = rng.choice([b"foo", b"bar", b"app.service", b"a.b.c"]); sfx = rng.choice([b"conf", b"cfg"])
         dl = rng.choice([b"=", b"=", b":=", b" "]); cm = rng.choice([b"#", b";", b"#;", b";#", b"#"])
         cmds = []
         for li, d in enumerate([b"/usr/etc", b"/etc"]):
